@@ -1,10 +1,11 @@
 (* C08: the obligations of Properties.v, proved (statement for statement) *)
 From OlaBase Require Import Bytes.
-From C08 Require Import Gen Model Spec ListLemmas SacnTrack SacnProofs SacnThms ArtProofs ArtDistinct SeqInv TextSpec TextThm TextCheck WireProofs ShadowThm ArtText ArtStep NodeProofs.
+From C08 Require Import Gen Model Spec ListLemmas SacnTrack SacnProofs SacnThms ArtProofs ArtDistinct SeqInv TextSpec TextThm TextCheck WireProofs ShadowThm ArtText ArtStep NodeProofs ExtProofs.
 Local Open Scope N_scope.
 
 Lemma c08_consts_l :
   E131_PREVIEW_DATA_MASK = 2 ^ 7 /\ E131_STREAM_TERMINATED_MASK = 2 ^ 6 /\ VECTOR_E131_DATA = 2 /\
+  VECTOR_ROOT_E131 = 4 /\ VECTOR_ROOT_E131_REV2 = 3 /\ ARTNET_MAX_PORTS = 4 /\
   EXPIRY_INTERVAL_US = 2500000 /\ SACN_MAX_PRIORITY = 200 /\ SACN_MAX_MERGE_SOURCES = 6 /\
   SEQUENCE_DIFF_THRESHOLD_NEG = 20 /\ ARTNET_MAX_MERGE_SOURCES = 2 /\ ARTNET_MERGE_TIMEOUT = 10 /\
   DMX_UNIVERSE_SIZE = 512.
@@ -205,4 +206,77 @@ Lemma c08_artnet_node_l :
        (forall out, snd t = Some out -> ap_buf (np_port (fst r)) = out) /\
        (np_en p = false -> fst r = p)) (n_ports nd) Gs.
 Proof. exact node_refines. Qed.
+
+Lemma c08_sacn_datagram_l :
+  (forall c now st d,
+     handle_dgram c now st d = match dpkt d with Some p => handle c now st p | None => (st, OIgnore) end) /\
+  (forall c h st, drun c st h = run c st (dpkts h)) /\
+  (forall w, p_rev2 (pkt_of_wire (with_rev2 true w)) = true /\
+             p_preview (pkt_of_wire (with_rev2 true w)) = false /\
+             p_term (pkt_of_wire (with_rev2 true w)) = false).
+Proof. split; [exact handle_dgram_spec|]. split; [intros c h st; apply drun_run | exact dgram_rev2]. Qed.
+
+Lemma c08_sacn_cap_l :
+  (forall c (h : list (N * pkt)),
+     (length (u_srcs (run c init_ust h)) <= N.to_nat SACN_MAX_MERGE_SOURCES)%nat) /\
+  (forall c (h : list (N * dgram)),
+     (length (u_srcs (drun c init_ust h)) <= N.to_nat SACN_MAX_MERGE_SOURCES)%nat) /\
+  (forall c now st p st' oc,
+     (forall s, In s (u_srcs st) -> s_cid s <> p_cid p) ->
+     length (expire now (p_cid p) (u_srcs st)) = N.to_nat SACN_MAX_MERGE_SOURCES ->
+     p_prio p <= u_active st ->
+     handle c now st p = (st', oc) ->
+     u_buf st' = u_buf st /\ u_pout st' = u_pout st /\ no_merge oc /\ u_active st' = u_active st /\
+     (u_srcs st' = u_srcs st \/ u_srcs st' = expire now (p_cid p) (u_srcs st)) /\
+     (forall s, In s (u_srcs st') -> s_cid s <> p_cid p)).
+Proof.
+  split; [exact run_cap|]. split; [intros c h; rewrite drun_run; apply run_cap | exact seventh_refused].
+Qed.
+
+Lemma c08_sacn_preview_l :
+  (forall c now st p b,
+     c_ignore_preview c = false -> handle c now st (set_preview b p) = handle c now st p) /\
+  (forall c now st w,
+     w_rev2 w = false -> N.testbit (w_opts w) 7 = true -> c_ignore_preview c = true ->
+     handle_wire c now st w = (st, OIgnore)).
+Proof. split; [exact preview_irrelevant | exact wire_ignore_preview]. Qed.
+
+Lemma c08_sacn_priority_cap_l :
+  (forall c now st d,
+     SACN_MAX_PRIORITY < w_prio (d_wire d) -> handle_dgram c now st d = (st, OIgnore)) /\
+  (forall c now k p,
+     SACN_MAX_PRIORITY < p_prio p ->
+     fst (fst (fst (cstep c now k true p))) = k /\ snd (fst (fst (cstep c now k true p))) = OIgnore).
+Proof. split; [exact prio_cap_dgram | exact prio_cap_checker]. Qed.
+
+Lemma c08_artnet_node_cap_l :
+  (forall (h : list (N * nop)),
+     Forall (fun p => length (ap_srcs (np_port p)) = N.to_nat ARTNET_MAX_MERGE_SOURCES /\
+                      adistinct (ap_srcs (np_port p)))
+            (n_ports (fst (nrun init_node init_ghosts h)))) /\
+  (forall net now p k,
+     (forall s, In s (ap_srcs (np_port p)) ->
+        a_addr s <> k_addr k /\ a_addr s <> 0 /\ now <= a_ts s + 10000000) ->
+     port_data net now p k = (p, false)).
+Proof. split; [intros h; apply nrun_shape, init_shape | exact node_third]. Qed.
+
+Lemma c08_sacn_window_l :
+  (forall c h now p s st' oc,
+     (forall np, In np h -> p_seq (snd np) < 256) -> p_seq p < 256 ->
+     let st := fst (grun c init_ust [] h) in
+     In s (u_srcs st) -> s_cid s = p_cid p -> behind (s_seq s) (p_seq p) <= 19 ->
+     handle c now st p = (st', oc) ->
+     u_buf st' = u_buf st /\ u_pout st' = u_pout st /\ no_merge oc /\ In s (u_srcs st') /\
+     (u_srcs st' = u_srcs st \/ u_srcs st' = expire now (p_cid p) (u_srcs st))) /\
+  (forall c h now p s st' oc,
+     (forall np, In np h -> p_seq (snd np) < 256) -> p_seq p < 256 ->
+     let st := fst (grun c init_ust [] h) in
+     In s (u_srcs st) -> s_cid s = p_cid p -> p_term p = true -> 19 < behind (s_seq s) (p_seq p) ->
+     handle c now st p = (st', oc) ->
+     (oc = OIgnore /\ st' = st) \/
+     exists l1 l2, expire now (p_cid p) (u_srcs st) = l1 ++ s :: l2 /\
+       u_srcs st' = l1 ++ l2 /\ oc = OMerge None (negb (is_nil (l1 ++ l2))) /\
+       htp_of (map s_buf (l1 ++ l2)) (u_buf st') /\
+       (forall x, In x (l1 ++ l2) -> s_cid x <> p_cid p)).
+Proof. split; [exact window_behind | exact window_terminate]. Qed.
 
